@@ -8,12 +8,18 @@
 //!   read  <path> <key> <str|u64>   `prop::<T>(key)` then `Prop::get`
 //!   readd <path> <key> <str|u64>   `prop::<T>(key)` then `or_default().get()`
 //!   write <path> <key> <str|u64> <val>   `prop::<T>(key)` then `set(val)`
+//!   open <path> <key> <str|u64> <h>      `prop::<T>(key)`; on success the handle is kept alive under the name <h>
+//!   hget <h> | hdef <h> | hset <h> <val> | hclear <h> | hdrop <h>
+//!                                  `Prop::get` / `or_default()` (the handle stays upgraded) then `get` /
+//!                                  `set(val)` / `Prop::clear(self)` / drop, through the live handle <h>
+//!                                  (lines naming a handle that is not alive are skipped)
+//!   clear <path> <key>             `prop_raw(key).clear()`
 //! Transcript: the same lines extended with ` -> <answer>`:
 //!   cfg  -> ok | err (YAML text rejected by serde_yml: the include is silently ignored) | panic
 //!   node -> ok | panic
 //!   props/cap -> `-` | `k=v;k=v` (keys sorted; `~` = empty string; `!` = empty slot; `#n` number;
 //!                `{k:v,..}` mapping in stored order) | nomod | panic
-//!   read/readd/write -> none | s:<text> | n:<number> | ok | invalid | other | nomod | panic
+//!   read/readd/write/open/h* -> none | s:<text> | n:<number> | ok | invalid | other | nomod | panic
 //! The YAML text is generated with every key and every scalar double-quoted (serde_yml parsing is an input).
 use crate::rng::Rng;
 use crate::util::{cases, guarded};
@@ -194,6 +200,49 @@ pub fn gen(seed: u64, count: usize, thorough: bool) -> String {
             }
             writeln!(out, "props {m}").unwrap();
         }
+        // several live handles on one property: stale handles, clear, re-typing after a clear
+        let mut hn = 0u64;
+        for _ in 0..(if r.chance(1, 2) { r.range(1, 2) } else { 0 }) {
+            let m = r.pick(&mods).join(".");
+            let key = if !names.is_empty() && r.chance(1, 2) { r.pick(&names).clone() } else { "hh".to_string() };
+            let mut mine: Vec<(String, &str)> = Vec::new();
+            let nops = if thorough { r.range(4, 16) } else { r.range(4, 10) };
+            for i in 0..nops {
+                let x = if i < 2 { 0 } else { r.below(20) };
+                match x {
+                    0..=3 => {
+                        hn += 1;
+                        let ty = if r.chance(1, 2) { "str" } else { "u64" };
+                        writeln!(out, "open {m} {key} {ty} h{hn}").unwrap();
+                        mine.push((format!("h{hn}"), ty));
+                    }
+                    4..=16 if !mine.is_empty() => {
+                        let (h, ty) = r.pick(&mine).clone();
+                        match x {
+                            4..=7 => writeln!(out, "hget {h}").unwrap(),
+                            8..=9 => writeln!(out, "hdef {h}").unwrap(),
+                            10..=14 => {
+                                let v = if ty == "str" { format!("w{}", r.below(9)) } else { format!("{}", r.below(90)) };
+                                writeln!(out, "hset {h} {v}").unwrap()
+                            }
+                            15 => writeln!(out, "hclear {h}").unwrap(),
+                            _ => writeln!(out, "hdrop {h}").unwrap(),
+                        }
+                    }
+                    17 | 18 => writeln!(out, "clear {m} {key}").unwrap(),
+                    _ => {
+                        let ty = if r.chance(1, 2) { "str" } else { "u64" };
+                        if r.chance(1, 2) {
+                            writeln!(out, "read {m} {key} {ty}").unwrap()
+                        } else {
+                            let v = if ty == "str" { format!("w{}", r.below(9)) } else { format!("{}", r.below(90)) };
+                            writeln!(out, "write {m} {key} {ty} {v}").unwrap()
+                        }
+                    }
+                }
+            }
+            writeln!(out, "props {m}").unwrap();
+        }
         writeln!(out, "end").unwrap();
     }
     out
@@ -283,12 +332,89 @@ fn typed<T: Ren>(m: &ModuleRef, op: &str, key: &str, val: Option<&str>) -> Strin
     }
 }
 
+/// a live handle of either type, upgraded (`PRESENT`) or not
+enum H {
+    SF(Prop<String, false>),
+    ST(Prop<String, true>),
+    UF(Prop<u64, false>),
+    UT(Prop<u64, true>),
+}
+
+fn open_h<T: Ren>(m: &ModuleRef, key: &str) -> Result<Prop<T>, String> {
+    match m.prop::<T>(key) {
+        Err(e) if e.kind() == ErrorKind::InvalidInput => Err("invalid".to_string()),
+        Err(_) => Err("other".to_string()),
+        Ok(p) => Ok(p),
+    }
+}
+
+fn opt_ren<T: Ren>(v: Result<Option<T>, String>) -> String {
+    match v {
+        Ok(Some(v)) => v.ren(),
+        Ok(None) => "none".to_string(),
+        Err(_) => "panic".to_string(),
+    }
+}
+
+/// one operation through a live handle: (answer, handle afterwards)
+fn handle_op(h: H, op: &str, val: Option<&str>) -> (String, Option<H>) {
+    match op {
+        "hget" => {
+            let a = match &h {
+                H::SF(p) => opt_ren(guarded(|| p.get())),
+                H::ST(p) => opt_ren(guarded(|| Some(p.get()))),
+                H::UF(p) => opt_ren(guarded(|| p.get())),
+                H::UT(p) => opt_ren(guarded(|| Some(p.get()))),
+            };
+            (a, Some(h))
+        }
+        "hdef" => {
+            let h = match h {
+                H::SF(p) => H::ST(p.or_default()),
+                H::UF(p) => H::UT(p.or_default()),
+                other => other,
+            };
+            let a = match &h {
+                H::ST(p) => opt_ren(guarded(|| Some(p.get()))),
+                H::UT(p) => opt_ren(guarded(|| Some(p.get()))),
+                _ => unreachable!(),
+            };
+            (a, Some(h))
+        }
+        "hset" => {
+            let v = val.unwrap_or("0");
+            let mut h = h;
+            let r = match &mut h {
+                H::SF(p) => guarded(|| p.set(String::parse(v))),
+                H::ST(p) => guarded(|| p.set(String::parse(v))),
+                H::UF(p) => guarded(|| p.set(u64::parse(v))),
+                H::UT(p) => guarded(|| p.set(u64::parse(v))),
+            };
+            (if r.is_ok() { "ok" } else { "panic" }.to_string(), Some(h))
+        }
+        "hclear" => {
+            match h {
+                H::SF(p) => p.clear(),
+                H::ST(p) => p.clear(),
+                H::UF(p) => p.clear(),
+                H::UT(p) => p.clear(),
+            }
+            ("ok".to_string(), None)
+        }
+        _ => {
+            drop(h);
+            ("ok".to_string(), None)
+        }
+    }
+}
+
 pub fn exec(input: &str) -> String {
     let mut out = String::new();
     for (header, body) in cases(input) {
         writeln!(out, "{header}").unwrap();
         let mut sim = Some(Sim::new(()));
         let mut dead = false;
+        let mut handles: std::collections::HashMap<String, H> = std::collections::HashMap::new();
         for line in body {
             if dead {
                 break;
@@ -373,10 +499,52 @@ pub fn exec(input: &str) -> String {
                         }
                     }
                 }
+                ["open", path, key, ty, name] => {
+                    let s = sim.as_ref().unwrap();
+                    match guarded(|| {
+                        s.globals().get(&ObjectPath::from(*path)).map(|m| match *ty {
+                            "str" => open_h::<String>(&m, key).map(H::SF),
+                            _ => open_h::<u64>(&m, key).map(H::UF),
+                        })
+                    }) {
+                        Ok(Some(Ok(h))) => {
+                            handles.insert(name.to_string(), h);
+                            "ok".to_string()
+                        }
+                        Ok(Some(Err(e))) => e,
+                        Ok(None) => "nomod".to_string(),
+                        Err(_) => {
+                            dead = true;
+                            "panic".to_string()
+                        }
+                    }
+                }
+                [op @ ("hget" | "hdef" | "hset" | "hclear" | "hdrop"), name, rest @ ..] => {
+                    let Some(h) = handles.remove(*name) else {
+                        continue; // not alive (never opened, consumed, or the open line was deleted)
+                    };
+                    let (a, h2) = handle_op(h, op, rest.first().copied());
+                    if let Some(h2) = h2 {
+                        handles.insert(name.to_string(), h2);
+                    }
+                    a
+                }
+                ["clear", path, key] => {
+                    let s = sim.as_ref().unwrap();
+                    match guarded(|| s.globals().get(&ObjectPath::from(*path)).map(|m| m.prop_raw(key).clear())) {
+                        Ok(Some(())) => "ok".to_string(),
+                        Ok(None) => "nomod".to_string(),
+                        Err(_) => {
+                            dead = true;
+                            "panic".to_string()
+                        }
+                    }
+                }
                 _ => continue,
             };
             writeln!(out, "{line} -> {ans}").unwrap();
         }
+        drop(handles);
         let s = sim.take();
         let dropped = guarded(move || drop(s));
         writeln!(out, "end{}", if dropped.is_err() { " drop-panic" } else { "" }).unwrap();
